@@ -127,6 +127,12 @@ def check_shadowing(ctx, V):
             for w in (V.rule_words.get(r.index) or ()):
                 words[w] = r.action
     ctx.info['dml_ddl_cte_words'] = sorted(words)
+    core = {'SELECT': 'DML', 'INSERT': 'DML', 'UPDATE': 'DML', 'DELETE': 'DML', 'CREATE': 'DDL', 'ALTER': 'DDL', 'DROP': 'DDL',
+            'CREATE OR REPLACE': 'DDL', 'WITH': 'CTE'}
+    for w, sub in sorted(core.items()):
+        got = words.get(w)
+        ctx.ob('R18.3', f'core:{w}', T.kwmod.relpath, f'{w} is typed Keyword.{sub} by the keyword tables', got == TT(('Keyword', sub)),
+               f'{w} is typed {got!r}: get_type() does not recognise a leading {w}')
     ctx.need(len(words) >= 10, 'fewer than 10 DML/DDL/CTE words found in the keyword tables')
     contexts = [(' ', 'blank'), ('\n', 'newline'), (';', 'semicolon'), ('(', 'open parenthesis'), ('.', 'period'), (' .', 'blank+period')]
     for cx, cname in contexts:
